@@ -593,20 +593,27 @@ func init() {
 				return
 			}
 			r := s.R
+			// few kinds, many start numbers: items of one (type, symbol, level) kind with different configurations meet often
+			lvl := func() int {
+				if r.Chance(3, 4) {
+					return r.Intn(2)
+				}
+				return r.Range(0, 8)
+			}
 			switch r.Intn(5) {
 			case 0:
 				var cfg *document.ListConfig
 				if !r.Chance(1, 6) {
-					cfg = &document.ListConfig{Type: listTypes[r.Intn(len(listTypes))], BulletSymbol: bulletTypes[r.Intn(len(bulletTypes))], StartNumber: r.Range(0, 12), IndentLevel: r.Range(0, 8)}
+					cfg = &document.ListConfig{Type: listTypes[r.Intn(len(listTypes))], BulletSymbol: bulletTypes[r.Intn(len(bulletTypes))], StartNumber: r.Range(0, 12), IndentLevel: lvl()}
 					if s.Hostile && r.Chance(1, 6) {
 						cfg.BulletSymbol = document.BulletType(s.Str())
 					}
 				}
 				s.Paras = append(s.Paras, s.Doc.AddListItem(s.Str(), cfg))
 			case 1:
-				s.Paras = append(s.Paras, s.Doc.AddBulletList(s.Str(), r.Range(0, 8), bulletTypes[r.Intn(len(bulletTypes))]))
+				s.Paras = append(s.Paras, s.Doc.AddBulletList(s.Str(), lvl(), bulletTypes[r.Intn(len(bulletTypes))]))
 			case 2:
-				s.Paras = append(s.Paras, s.Doc.AddNumberedList(s.Str(), r.Range(0, 8), listTypes[r.Intn(len(listTypes))]))
+				s.Paras = append(s.Paras, s.Doc.AddNumberedList(s.Str(), lvl(), listTypes[r.Intn(len(listTypes))]))
 			case 3:
 				items := make([]document.ListItem, r.Range(0, 4))
 				for i := range items {
